@@ -221,7 +221,7 @@ class Recorder:
             raise Unsupported(f'stream.stream assigned {items[:3]}')
 
     # ---- result in the canonical form of the driver's `docscript` ------------------------------------------------
-    def show(self, wb='wb=ok'):
+    def show(self, wb='wb=ok', refs=True):
         res_list = []
         for stream in self.streams:
             if not any(r is stream._resources for r in res_list):
@@ -237,7 +237,15 @@ class Recorder:
             # after `_use_references` the values are indirect references: keys only
             res_parts.append(f'R E={",".join(res["ExtGState"])} X={",".join(res["XObject"])} '
                              f'P={len(res["Pattern"])} Sh={len(res["Shading"])}')
-        return f'ok {wb} | ' + ' | '.join(parts) + ' || ' + ' | '.join(res_parts)
+        text = f'ok {wb} | ' + ' | '.join(parts) + ' || ' + ' | '.join(res_parts)
+        if refs:
+            # what `_use_references` did: dictionaries that got /Font, group / pattern streams added to the PDF, images
+            fonts = sum(1 for res in res_list if res.get('Font') is not None)
+            added = sum(1 for s in self.streams if getattr(s, 'id', None) and getattr(s, 'number', None) is not None)
+            images = sum(1 for data in self.streams[0]._images.values() if data['x_object'] is not None) if (
+                self.streams) else 0
+            text += f' || U fonts={fonts} streams={added} images={images}'
+        return text
 
 
 def wire_call(call):
